@@ -50,6 +50,9 @@ def Cur.idx (c : Cur) : Nat := c.total - c.rest.length
 def Cur.span (c : Cur) : Sp := match c.rest with | t :: _ => t.sp' | [] => c.scope
 def Cur.advance (c : Cur) (n : Nat) : Cur := { c with rest := c.rest.drop n }
 def Cur.isEmpty (c : Cur) : Bool := c.rest.isEmpty
+/-- The cursor at the start of the content of the group that is the next token of `c`. -/
+def Cur.inner (c : Cur) (ts : List TT) (spClose : Sp) : Cur :=
+  { path := c.path ++ [c.idx], total := ts.length, rest := ts, scope := spClose }
 
 /-- Parser state besides the cursor: the node counter and the deferred-unexpected flag. -/
 structure PSt where
@@ -136,8 +139,7 @@ def withGroup {α} (d : Delim) (inner : Sp → Sp → P α) : P α := fun c s =>
   match c.rest with
   | .group d' _ spOpen spClose ts :: _ =>
     if d == d' then
-      let ic : Cur := { path := c.path ++ [c.idx], total := ts.length, rest := ts, scope := spClose }
-      match inner spOpen spClose ic s with
+      match inner spOpen spClose (c.inner ts spClose) s with
       | .ok a ic' s' => .ok a (c.advance 1) { s' with unexp := s'.unexp || !ic'.rest.isEmpty }
       | .err n => .err n
       | .fuel => .fuel
